@@ -161,22 +161,29 @@ def case_of(s, styles, outs, hist=()):
 
 
 # ---------------------------------------------------------------------------------------------------
-def judge(ctx, cases, tag):
-    """TLC judges the cases in chunks (3 JVMs at a time); -> (records by global index, number judged)"""
+POOL = None            # one pool for all TLC runs of a check: at most 3 JVMs at a time
+
+
+def judge_start(ctx, cases, tag):
+    """TLC judges the cases in chunks, in the background; -> handle for judge_finish"""
     chunks = [cases[k:k + CHUNK] for k in range(0, len(cases), CHUNK)]
 
-    def one(job):
-        n, chunk = job
+    def one(n, chunk):
         out, _ = tlc.evaluate('RawSqlJudge', ctx.scratch, inputs={'cases': chunk}, tag='%s-%d' % (tag, n))
         return out
+    return [(len(chunk), POOL.submit(one, n, chunk)) for n, chunk in enumerate(chunks)]
+
+
+def judge_finish(handle):
+    """-> (records by global index, number judged)"""
     recs, judged = {}, 0
-    with concurrent.futures.ThreadPoolExecutor(max_workers=3) as ex:
-        for n, out in enumerate(ex.map(one, list(enumerate(chunks)))):
-            if out['n'] != len(chunks[n]):
-                raise MachineryError('TLC judged %d of %d cases' % (out['n'], len(chunks[n])))
-            judged += out['n']
-            for r in out['recs']:
-                recs[n * CHUNK + r['i'] - 1] = r
+    for n, (size, fut) in enumerate(handle):
+        out = fut.result()
+        if out['n'] != size:
+            raise MachineryError('TLC judged %d of %d cases' % (out['n'], size))
+        judged += out['n']
+        for r in out['recs']:
+            recs[n * CHUNK + r['i'] - 1] = r
     return recs, judged
 
 
@@ -256,40 +263,7 @@ def bound_in_order(st, bound, refs, n):
         return ('v', ['<placeholders %r do not match the arguments>' % (refs,)])
 
 
-def fn_of(st):
-    return 'parse_raw_sql' if st == 'items' else 'adapt_sql'
-
-
-# ---------------------------------------------------------------------------------------------------
-def run(ctx):
-    warnings.filterwarnings('ignore', category=SyntaxWarning)       # compile() of e.g. `()()` in the enumerated expressions
-    tab, _ = tlc.evaluate('RawSqlTables', ctx.scratch, inputs={'tier': ctx.tier})
-    alphabet, styles = tab['alphabet'], tab['styles']
-    names = list(styles) + ['items']
-
-    # -- E2a: every statement, empty caches ---------------------------------------------------------
-    stmts = [''.join(w) for n in range(1, tab['maxlen'] + 1) for w in itertools.product(alphabet, repeat=n)]
-    if tab['exprfirst']:
-        stmts += ['$' + ''.join(w) for w in itertools.product(alphabet, repeat=tab['exprfirst'])]
-    if len(stmts) != tab['count']:
-        raise MachineryError('statement space: %d enumerated, the spec counts %d' % (len(stmts), tab['count']))
-    stmts += sorted(''.join(w) for w in tab['extra'] if ''.join(w) not in set(stmts))
-    stats = collections.Counter()
-    outs_all = [outcome_all(s, styles) for s in stmts]
-    cases = [case_of(s, styles, o) for s, o in zip(stmts, outs_all)]
-    recs, judged = judge(ctx, cases, 'stmts')
-    for k, rec in sorted(recs.items()):
-        assess(ctx, stats, fn_of, stmts[k], (), list(zip(names, outs_all[k])), rec)
-        if rec['exprs'] and not rec['rej'] and len(rec['exprs']) >= 1 and stats['sampled'] < 6 and (k % 997 == 0 or stats['sampled'] == 0):
-            stats['sampled'] += 1
-            ctx.sample({'statement': stmts[k], 'expressions': [join(e) for e in rec['exprs']],
-                        'adapted': {st: join(o[2]) for st, o in zip(names[:-1], outs_all[k]) if o[0]}})
-    stats['statements'] = len(stmts)
-    stats['with_expression'] = sum(1 for r in recs.values() if r['exprs'] and not r['rej'])
-    stats['rejected_by_spec'] = sum(1 for r in recs.values() if r['rej'])
-    outputs_single = len(stmts) * len(names)
-
-    # -- E2b: ordered pairs of the core set: the second adaptation after the first ---------------
+def start_pairs(ctx, tab, names, stats):
     core_set = sorted(''.join(c) for c in tab['core'])
     seen = {}
     pairs = 0
@@ -312,7 +286,60 @@ def run(ctx):
     keys = sorted(seen)
     pcases = [{'s': list(k[0]), 'hist': [list(seen[k][0])], 'same': 0,
                'outs': [{'st': k[1], 'ok': seen[k][1][0], 'h': seen[k][1][1], 't': list(seen[k][1][2])}]} for k in keys]
-    precs, pjudged = judge(ctx, pcases, 'pairs')
+    return judge_start(ctx, pcases, 'pairs'), keys, seen, pairs
+
+
+def fn_of(st):
+    return 'parse_raw_sql' if st == 'items' else 'adapt_sql'
+
+
+# ---------------------------------------------------------------------------------------------------
+def run(ctx):
+    global POOL
+    POOL = concurrent.futures.ThreadPoolExecutor(max_workers=3)
+    try:
+        run_all(ctx)
+    finally:
+        POOL.shutdown()
+
+
+def run_all(ctx):
+    warnings.filterwarnings('ignore', category=SyntaxWarning)       # compile() of e.g. `()()` in the enumerated expressions
+    tab, _ = tlc.evaluate('RawSqlTables', ctx.scratch, inputs={'tier': ctx.tier})
+    law = POOL.submit(tlc.evaluate, 'RawSqlLaws', ctx.scratch)        # ASSUMEs only: TLC fails if a law does not hold
+    alphabet, styles = tab['alphabet'], tab['styles']
+    names = list(styles) + ['items']
+
+    # -- E2a: every statement, empty caches ---------------------------------------------------------
+    stmts = [''.join(w) for n in range(1, tab['maxlen'] + 1) for w in itertools.product(alphabet, repeat=n)]
+    if tab['exprfirst']:
+        stmts += ['$' + ''.join(w) for w in itertools.product(alphabet, repeat=tab['exprfirst'])]
+    if len(stmts) != tab['count']:
+        raise MachineryError('statement space: %d enumerated, the spec counts %d' % (len(stmts), tab['count']))
+    stmts += sorted(''.join(w) for w in tab['extra'] if ''.join(w) not in set(stmts))
+    stats = collections.Counter()
+    outs_all = [outcome_all(s, styles) for s in stmts]
+    cases = [case_of(s, styles, o) for s, o in zip(stmts, outs_all)]
+    h_stmts = judge_start(ctx, cases, 'stmts')
+    h_pairs, keys, seen, pairs = start_pairs(ctx, tab, names, stats)
+    h_e1 = start_e1(ctx, stats)
+
+    recs, judged = judge_finish(h_stmts)
+    picked = 0
+    for k, rec in sorted(recs.items()):
+        assess(ctx, stats, fn_of, stmts[k], (), list(zip(names, outs_all[k])), rec)
+        if rec['exprs'] and not rec['rej'] and len(rec['exprs'][0]) >= 3 and all(o[0] for o in outs_all[k]):
+            picked += 1
+            if picked % 17 == 1:
+                ctx.sample({'statement': stmts[k], 'expressions': [join(e) for e in rec['exprs']],
+                            'adapted': {st: join(o[2]) for st, o in zip(names[:-1], outs_all[k]) if o[0]}}, limit=6)
+    stats['statements'] = len(stmts)
+    stats['with_expression'] = sum(1 for r in recs.values() if r['exprs'] and not r['rej'])
+    stats['rejected_by_spec'] = sum(1 for r in recs.values() if r['rej'])
+    outputs_single = len(stmts) * len(names)
+
+    # -- E2b: ordered pairs of the core set: the second adaptation after the first ---------------
+    precs, pjudged = judge_finish(h_pairs)
     for n, k in enumerate(keys):
         rec = precs.get(n)
         if rec is None:
@@ -320,9 +347,11 @@ def run(ctx):
         assess(ctx, stats, fn_of, k[0], (seen[k][0],), [(k[1], seen[k][1])], rec)
     stats['pairs'] = pairs
     stats['pair_distinct_outputs_judged'] = len(keys)
+    core_set = tab['core']
 
     # -- E1: end to end on SQLite -------------------------------------------------------------------
-    e1 = run_e1(ctx, stats)
+    e1 = finish_e1(ctx, stats, h_e1)
+    law.result()
 
     ctx.coverage.update({
         'programs': len(stmts) + pairs + e1,
@@ -401,7 +430,7 @@ E1_SELECT = [
 ]
 
 
-def run_e1(ctx, stats):
+def start_e1(ctx, stats):
     db = core.Database()
 
     class A(db.Entity):
@@ -468,8 +497,12 @@ def run_e1(ctx, stats):
             cases.append({'s': list(stmt), 'hist': [], 'same': 0,
                           'outs': [{'st': 'qmark', 'ok': 1, 'h': 0 if args is None else 1, 't': list(sql)}]})
         meta.append((label, stmt, sql, args, sc, res))
-    out, _ = tlc.evaluate('RawSqlJudge', ctx.scratch, inputs={'cases': cases}, tag='e1')
-    recs = {r['i'] - 1: r for r in out['recs']}
+    return judge_start(ctx, cases, 'e1'), meta
+
+
+def finish_e1(ctx, stats, handle):
+    h, meta = handle
+    recs, _ = judge_finish(h)
     for k, (label, stmt, sql, args, sc, res) in enumerate(meta):
         rec = recs.get(k)
         rep = {'mode': 'e1', 'label': label, 'stmt': stmt}
@@ -492,7 +525,7 @@ def run_e1(ctx, stats):
             row = res[0] if not isinstance(res[0], tuple) else list(res[0])
             if (row if isinstance(row, list) else [row]) != want:
                 ctx.mismatch('C30:e1:Database.select:wrong-result', '%s(%r) returned %r, the expressions are %r' % (label, stmt, res, want), rep)
-    ctx.sample({'end_to_end': [m[0] + ': ' + m[1] for m in meta[:3]], 'driver_saw': [(m[2], repr(m[3])) for m in meta[:3]]})
+    ctx.sample({'end_to_end': [m[0] + ': ' + m[1] for m in meta[5:60:18]], 'driver_saw': [(m[2], repr(m[3])) for m in meta[5:60:18]]}, limit=8)
     return len(meta)
 
 
